@@ -84,6 +84,104 @@ func sameParts(a, b *macParts) bool {
 	return true
 }
 
+// ---- hand encodings of a macaroon (what the holder of a token can write without the key, beyond what the library emits)
+
+func uvarint(b []byte) (uint64, int) {
+	var x uint64
+	var sft uint
+	for i, c := range b {
+		if c < 0x80 {
+			return x | uint64(c)<<sft, i + 1
+		}
+		x |= uint64(c&0x7f) << sft
+		sft += 7
+	}
+	return 0, 0
+}
+
+// v2CaveatSections finds, in a v2 binary macaroon, the start offset and the offset of the end-of-section byte of every caveat.
+func v2CaveatSections(b []byte) (starts, ends []int, ok bool) {
+	if len(b) == 0 || b[0] != 2 {
+		return nil, nil, false
+	}
+	i := 1
+	skipSection := func() bool {
+		for i < len(b) {
+			if b[i] == 0 { // EOS
+				return true
+			}
+			_, n := uvarint(b[i:])
+			if n == 0 {
+				return false
+			}
+			i += n
+			l, n2 := uvarint(b[i:])
+			if n2 == 0 || i+n2+int(l) > len(b) {
+				return false
+			}
+			i += n2 + int(l)
+		}
+		return false
+	}
+	if !skipSection() { // header: [location] identifier EOS
+		return nil, nil, false
+	}
+	i++
+	for i < len(b) && b[i] != 0 {
+		st := i
+		if !skipSection() {
+			return nil, nil, false
+		}
+		starts, ends = append(starts, st), append(ends, i)
+		i++
+	}
+	return starts, ends, i < len(b)
+}
+
+// v2Variants: the same macaroon with a zero-length verification-id field (04 00) written into one caveat section, or a
+// zero-length location field (01 00) put in front of one caveat; name tells which.
+func v2Variants(b []byte) map[string][]byte {
+	out := map[string][]byte{}
+	starts, ends, ok := v2CaveatSections(b)
+	if !ok {
+		return out
+	}
+	ins := func(at int, bytes ...byte) []byte {
+		n := append([]byte{}, b[:at]...)
+		n = append(n, bytes...)
+		return append(n, b[at:]...)
+	}
+	for k := range starts {
+		out[fmt.Sprintf("v2, empty verification id on caveat %d", k)] = ins(ends[k], 4, 0)
+		out[fmt.Sprintf("v2, empty location on caveat %d", k)] = ins(starts[k], 1, 0)
+	}
+	return out
+}
+
+// v1Encode writes the macaroon in the v1 binary format; emptyVid >= 0 adds a zero-length "vid" packet to that caveat and
+// emptyCl a zero-length "cl" packet.
+func v1Encode(m *macaroon.Macaroon, emptyVid, emptyCl int) []byte {
+	var out []byte
+	pkt := func(key string, data []byte) {
+		out = append(out, []byte(fmt.Sprintf("%04x%s ", len(key)+len(data)+6, key))...)
+		out = append(out, data...)
+		out = append(out, '\n')
+	}
+	pkt("location", []byte(m.Location()))
+	pkt("identifier", m.Id())
+	for k, c := range m.Caveats() {
+		pkt("cid", c.Id)
+		if len(c.VerificationId) > 0 || k == emptyVid {
+			pkt("vid", c.VerificationId)
+		}
+		if c.Location != "" || k == emptyCl {
+			pkt("cl", []byte(c.Location))
+		}
+	}
+	pkt("signature", m.Signature())
+	return out
+}
+
 func mint(secret, server, id string, caveats []string) string {
 	m, err := macaroon.New([]byte(secret), []byte(id), server, macaroon.V2)
 	if err != nil {
@@ -310,6 +408,9 @@ func run(r *harness.Run) {
 							report("char-altered", c, false, check(c, false, "case"))
 						}
 						// (4) appended caveats (possible without the key)
+						if validate(base64.RawURLEncoding.EncodeToString(v1Encode(origMac, -1, -1)), string(sec), usr, at) == nil {
+							r.Count("genuine_token_accepted_in_v1_encoding", 1) // shows that the hand encoder writes what the library reads
+						}
 						other := users[0]
 						if usr == other {
 							other = users[1]
@@ -329,6 +430,21 @@ func run(r *harness.Run) {
 									c := one{ip, valP{sec, vu, dl}, "appended caveat " + strconv.Quote(cav), t2}
 									report("caveat-appended", c, false, check(c, false, "case"))
 								}
+							}
+							// the same attenuated token in encodings the library itself never writes: the v1 binary format, and either
+							// format with a zero-length verification id / location on a caveat. However it is spelt, it carries an
+							// additional caveat and must be refused
+							nc := len(m2.Caveats())
+							hand := v2Variants(b2)
+							hand["v1"] = v1Encode(m2, -1, -1)
+							for k := 0; k < nc; k++ {
+								hand[fmt.Sprintf("v1, empty vid on caveat %d", k)] = v1Encode(m2, k, -1)
+								hand[fmt.Sprintf("v1, empty cl on caveat %d", k)] = v1Encode(m2, -1, k)
+							}
+							for name, hb := range hand {
+								th := base64.RawURLEncoding.EncodeToString(hb)
+								c := one{ip, valP{sec, usr, 0}, "appended caveat " + strconv.Quote(cav) + ", encoded by hand: " + name, th}
+								report("caveat-appended-encoding", c, false, check(c, false, "case"))
 							}
 							r.Nontrivial("a:" + t2)
 						}
